@@ -308,9 +308,52 @@ def job_platform(nreq):
                      cfg=dict(io_entries=3, requests=nreq), replay_dir=rdir(), max_paths=400000)
 
 
+def job_platform_two_builds():
+    """two platforms built one after the other in the same process from the SAME io list and the same extension (what a script that builds two
+    targets, or a test suite, does): in each of them an entry - extension entries included - is granted at most once"""
+    stubs()
+    from litex.build.generic_platform import ConstraintManager, ConstraintError, Pins
+    import migen.fhdl.structure as mst
+
+    class _Any:
+        def match(self, n):
+            return True
+    mst.Signal._name_re = _Any()
+
+    def body(ctx):
+        pool = ["led", "btn"]
+        n0 = ctx.choice("io_name", pool)
+        k0 = ctx.int("io_num", 0, 1)
+        io = [(n0, k0, Pins("A1")), ("clk", 0, Pins("B2"))]
+        en = ctx.choice("ext_name", pool + ["dbg"])
+        ek = ctx.int("ext_num", 0, 1)
+        ext = [(en, ek, Pins("C3"))]
+        ok = True
+        for build in range(2):
+            cm = ConstraintManager(io, [])
+            cm.add_extension(ext)
+            qn = ctx.choice("req_name_%d" % build, pool + ["dbg"])
+            qi = ctx.int("req_num_%d" % build, 0, 1)
+            grants = 0
+            for attempt in range(3):
+                try:
+                    cm.request(qn, qi)
+                    grants += 1
+                    ctx.event("granted")
+                except ConstraintError:
+                    ctx.event("refused")
+            declared = sum(1 for (a, b) in ((n0, k0), (en, ek)) if bool(a == qn) and bool(b == qi))
+            if grants > declared:
+                ok = False
+        return dict(entry_granted_at_most_once_in_every_build=ok)
+    return run_pysym("platform_two_builds", body, ["entry_granted_at_most_once_in_every_build"], required_events=["granted", "refused"], funcs=FUNCS,
+                     cfg=dict(builds=2, io_entries=2, extension_entries=1), replay_dir=rdir(), max_paths=400000)
+
+
 def jobs(tier):
     T = tier == "thorough"
-    js = [Job("regions_fixed_2", job_regions_fixed, dict(n=2, classes=(None if T else [3, 4, 5, 12, 20, 31])), cost=60, timeout_s=7000),
+    js = [Job("platform_two_builds", job_platform_two_builds, {}, cost=10, timeout_s=1200),
+          Job("regions_fixed_2", job_regions_fixed, dict(n=2, classes=(None if T else [3, 4, 5, 12, 20, 31])), cost=60, timeout_s=7000),
           Job("regions_fixed_3_classes", job_regions_fixed, dict(n=3, classes=([3, 12, 31] if T else [3, 31])), cost=60, timeout_s=3400),
           Job("regions_io_fixed", job_io_fixed, {}, cost=10, timeout_s=1200),
           Job("alloc_aw5_f2", job_alloc, dict(aw=5, with_io=False, nfixed=2), cost=40, timeout_s=3400),
